@@ -143,6 +143,20 @@ example : decompress 5 none (compress () (.node () [97] () [.node () (refPrefix 
 example : decompress 5 none (compress 0 (.node 0 [97] 0 [.node 0 [98] 1 [], .node 0 [98] 2 []])).1 =
     .ok (.node 0 [97] 0 [.node 0 [98] 1 [], .node 0 [98] 1 []]) := by rfl
 
+/-- **Whatever the gate says, the plugin ends up with the compiler's AST**: compressed-with-trailer for a
+plugin that understands it (and the switch on), plain otherwise. -/
+theorem plugin_sees_compiler_ast {α : Type} (dflt : α) (gate : Bool) (t : Tree α) (hc : Consistent t) (hn : NoRef t)
+    (f : Nat) (hf : t.depth ≤ f) : receiveAst f (sendAst dflt gate t) = .ok t := by
+  cases gate
+  · simp [sendAst, receiveAst]
+  · simp only [sendAst, receiveAst, if_true]
+    exact (compress_decompress dflt t hc hn f hf).1
+
+/-- why both halves must hang on ONE condition: compressed includes without the trailer reach the plugin
+as reference stubs (the seeded change C11-m4: compression guarded by the environment switch alone) -/
+example : receiveAst 5 ((compress 0 (.node 0 [97] 7 [.node 1 [98] 8 [.node 1 [100] 9 []], .node 2 [99] 8 [.node 2 [100] 9 []]])).1, false) =
+    .ok (.node 0 [97] 7 [.node 1 [98] 8 [.node 1 [100] 9 []], .node 2 [99] 8 [.node 2 (refPrefix ++ [100]) 0 []]]) := by rfl
+
 /-! ### data trailer -/
 
 /-- the trailer is recognised behind any data, -/
@@ -233,6 +247,12 @@ theorem version_gate (a b c : Bytes) (pre : Option Bytes) (ha : IsDigits a) (hb 
         have hne : ((digitsNat b : Int) != 4) = true := by simp; omega
         simp only [hne, if_true, h2, false_and, or_false]
         by_cases h4 : digitsNat b > 4 <;> simp [h4] <;> omega
+
+/-- the literals the model of `supportDataTrailer` is written with are those of the source today
+(`Generated.C11.gate*` are read from plugin/plugin.go with go/parser on every run) -/
+theorem gate_constants_match_source :
+    [Generated.C11.gateMinLen, Generated.C11.gateMajorGt, Generated.C11.gateMinor, Generated.C11.gateMinorGt,
+      Generated.C11.gatePatchGe] = gateConsts := by decide
 
 /-- hypotheses satisfiable: "v0.4.2", "v0.4.2-rc1", "v0.10.0" -/
 example : IsDigits [48] ∧ IsDigits [52] ∧ IsDigits [50] := by
